@@ -257,15 +257,6 @@ def immOp (working : Nat) (c : OT) (args : List String) : String :=
         fmtPairs l' ++ " stopped=" ++ b2s st ++ " vers=" ++ ",".intercalate vers
       | _ => "bad"
     | _, _ => "bad"
-  | [kind, k] =>
-    match dec k, c with
-    | some (some k), some t =>
-      if kind == "proof" then fmtProofRes (getProof working t k)
-      else if kind == "memproof" then fmtProofRes (memProof working t k)
-      else if kind == "nonmemproof" then fmtProofRes (nonMemProof working t k)
-      else "?"
-    | some (some _), none => if kind == "proof" then "err" else "?"
-    | _, _ => "bad"
   | "export" :: mode :: _ =>
     match c with
     | none => "[]"
@@ -276,6 +267,15 @@ def immOp (working : Nat) (c : OT) (args : List String) : String :=
         | some (_, cs) => "[" ++ " ".intercalate (cs.map fmtCNode) ++ "]"
         | none => "panic"
       else "[" ++ " ".intercalate (ns.map fmtExportNode) ++ "]"
+  | [kind, k] =>
+    match dec k, c with
+    | some (some k), some t =>
+      if kind == "proof" then fmtProofRes (getProof working t k)
+      else if kind == "memproof" then fmtProofRes (memProof working t k)
+      else if kind == "nonmemproof" then fmtProofRes (nonMemProof working t k)
+      else "?"
+    | some (some _), none => if kind == "proof" then "err" else "?"
+    | _, _ => "bad"
   | _ => "?"
 
 /-! ### ordered key-value contract (C18) -/
